@@ -460,7 +460,7 @@ Section Core.
   Proof.
     intros Hinv Ha.
     eapply post_weaken.
-    - apply (run_capop_okP cfg ncap Hcfg Hpol owned) with (F := True) (s := s) (v := v) (o := o).
+    - apply (run_capop_okP cfg ncap Hcfg Hpol owned) with (F := fun _ => True) (s := s) (v := v) (o := o).
       + intros s0 s' bl c size Ho Hse. apply (owned_grown s0 s' bl c size Ho); [exact (se_ledger _ _ Hse)|exact (se_next _ _ Hse)].
       + intros. apply owned_fresh_block.
       + destruct Hinv as [Hs|H]; [left; split; [exact Hs|exact I]|right; exact H].
